@@ -17,7 +17,7 @@ esac
 tests=$(grep -o '^func Test[A-Za-z0-9_]*' "$src/demo_test.go" | sed 's/func //' | paste -sd'|')
 suite=skip; demo_mut=skip; demo_clean=skip
 if [ $res_apply = ok ]; then
-  git diff > /tmp/seed_$id.diff
+  git diff HEAD > /tmp/seed_$id.diff
   if go build ./... >/dev/null 2>&1 && go test -vet=off -count=1 $(go list ./... | grep -v /osmpbf$) >/tmp/seed_$id.suite 2>&1 && go test -vet=off -count=1 -run '^$' ./osmpbf >/dev/null 2>&1; then suite=pass; else suite=FAIL; fi
   cp "$src/demo_test.go" $dir/zz_seed_demo_test.go
   if timeout 300 go test -vet=off -count=1 -run "^($tests)\$" ./$dir >/tmp/seed_$id.mut 2>&1; then demo_mut=PASS-unexpected; else demo_mut=fails; fi
